@@ -789,6 +789,42 @@ func editDeleteCall(p *parsed, site int) (string, int) {
 	return desc, done
 }
 
+// E12: the type named in an integer conversion is replaced by the next wider one (a
+// "constant-type"/width edit: the value wraps at a different point).
+var convWiden = map[string]string{"int8": "int16", "uint8": "uint16", "int16": "int32", "uint16": "uint32", "int32": "int64", "uint32": "uint64"}
+
+func editConvType(p *parsed, site int) (string, int) {
+	n, done := 0, 0
+	desc := ""
+	ast.Inspect(p.fn, func(nd ast.Node) bool {
+		c, ok := nd.(*ast.CallExpr)
+		if !ok || len(c.Args) != 1 {
+			return true
+		}
+		id, ok := c.Fun.(*ast.Ident)
+		if !ok {
+			return true
+		}
+		to, ok := convWiden[id.Name]
+		if !ok {
+			return true
+		}
+		if site == -1 || n == site {
+			if desc == "" {
+				desc = fmt.Sprintf("conversion %s(...) widened to %s(...) in `%s`", id.Name, to, exprStr(p.fset, c))
+			}
+			id.Name = to
+			done++
+		}
+		n++
+		return true
+	})
+	if site >= n {
+		return "", 0
+	}
+	return desc, done
+}
+
 var editOps = []siteOp{
 	{"E1-operator", "edit", editOperator},
 	{"E2-negate-without-swap", "edit", editNegate},
@@ -801,6 +837,7 @@ var editOps = []siteOp{
 	{"E9-small-int", "edit", editSmallInt},
 	{"E10-step", "edit", editIncDec},
 	{"E11-delete-call", "edit", editDeleteCall},
+	{"E12-conversion-width", "edit", editConvType},
 }
 
 func applyOne(src string, op siteOp, site int) (Variant, int) {
